@@ -22,7 +22,7 @@ INDUCTIVE = {"quick": [], "thorough": [
     {"module": "Binding", "cinit": "CInit", "init": "IndInit", "inv": "IndInv", "length": 1},
     {"module": "Binding", "cinit": "CInit", "init": "IndInit", "inv": "ActionInv", "length": 1}]}
 REQUIRED = ["Register", "Detect", "Access", "Construct", "Bind", "Copy", "access-refused", "bind-refused", "bind-ok",
-            "builtin-tie", "manual-wins", "builtin-registered", "nothing-matches", "access-cached", "access-after-manual-bind",
+            "builtin-tie", "manual-wins", "builtin-registered", "Strip", "derived-from-bound-detects-differently", "nothing-matches", "access-cached", "access-after-manual-bind",
             "detected-CFGrid1D", "detected-CFGrid2D", "detected-ShocSimple", "detected-ShocStandard", "detected-UGrid",
             "detected-X", "detected-Y"]
 RULE = ("(a) every one of the 256 detection feature vectors (CF coordinate rank none / 1-D / 2-D / mixed x ems_version x "
@@ -89,6 +89,12 @@ def cases(tier: str, seed: int) -> list[dict]:
             ev = [{"a": "Detect", "obj": 1}, {"a": "Register", "cls": rng.choice(["X", "Y"])}, {"a": "Detect", "obj": 1},
                   {"a": "Register", "cls": rng.choice(["X", "Y"])}, {"a": "Detect", "obj": 1}, {"a": "Detect", "obj": 1}]
             out.append({"src": "vec", "init": [c], "events": ev})
+            # the dataset is accessed (so whatever the accessor remembers is in place), a copy with one distinguishing feature
+            # removed is derived from it, and the copy is detected / accessed: its own content decides
+            for bit in range(6):
+                if bits >> bit & 1 and (bits in (3, 7, 56, 59, 63) or rng.random() < 0.1):
+                    out.append({"src": "vec", "init": [c], "events": [{"a": "Access", "obj": 1}, {"a": "Strip", "obj": 1, "bit": bit},
+                                                                      {"a": "Detect", "obj": 2}, {"a": "Access", "obj": 2}, {"a": "Access", "obj": 1}]})
             # built-in classes registered by hand as well (they are then both registered and entry points)
             bi = ["ShocStandard", "ShocSimple", "UGrid", "CFGrid1D", "CFGrid2D"]
             if bits in (7, 15, 59, 63, 23, 39) or rng.random() < 0.15:
@@ -249,6 +255,27 @@ def execute(case: dict) -> dict:
                         obs["ok"] = True
                     except ValueError:
                         obs["ok"] = False
+            elif a == "Strip":
+                # a (deep) copy with one distinguishing feature removed
+                d = objs[e["obj"] - 1].copy(deep=True)
+                f = decode(contents[e["obj"] - 1])
+                bit = e["bit"]
+                if bit == 0 and f["ems"]:
+                    del d.attrs["ems_version"]
+                elif bit == 1 and f["ji"]:
+                    d = d.drop_vars("dummy_ji")
+                elif bit == 2 and f["std8"]:
+                    d = d.drop_vars("y_centre")
+                elif bit == 3 and f["ugconv"]:
+                    del d.attrs["Conventions"]
+                elif bit == 4 and f["meshvar"]:
+                    d = d.drop_vars("Mesh")
+                elif bit == 5 and f["topo2"] and f["meshvar"]:
+                    d["Mesh"].attrs["topology_dimension"] = 1
+                objs.append(d)
+                c0 = contents[e["obj"] - 1]
+                contents.append(c0 - (1 << bit) if ((c0 - 1) % 64) >> bit & 1 else c0)
+                obs["new"] = len(objs)
             elif a == "Copy":
                 objs.append(objs[e["obj"] - 1].copy())
                 contents.append(contents[e["obj"] - 1])
